@@ -32,6 +32,11 @@ ALPHA = SEPS + [" ", "  ", ":", "", "a", "é", "中", '{"k": 1}', "﻿", "data: 
 CHARSETS = ["utf-8", "utf-8", "utf-8", "latin-1", "gbk", "cp1252"]
 
 
+class SafeText(str):
+    """a str subclass as templating libraries use them"""
+    __slots__ = ()
+
+
 def gen_event(rng, charset):
     ev = {}
     keys = rng.sample(["data", "event", "id", "retry"], rng.randrange(0, 5))
@@ -62,6 +67,8 @@ def gen_event(rng, charset):
         # keys as they come out of json.loads / string operations: equal to the literals, but other objects
         ev = {"".join(list(k)): v for k, v in ev.items()}
         assert all(k is not lit for k in ev for lit in ("data", "event", "id", "retry"))
+    if "data" in ev and rng.random() < 0.1:
+        ev["data"] = SafeText(ev["data"])  # text is text: a str subclass (markup-safe strings, enum members with text values) carries the same lines
     if "data" in ev and rng.random() < 0.02:
         ev["data"] = "\n".join(str(j) for j in range(rng.choice([255, 256, 257, 258, 300, 1000])))  # hundreds of lines
     return ev
